@@ -217,4 +217,33 @@ def plan (cfg : Cfg) (a : Args) (s : Script) : Plan :=
     | .error f => ⟨[c1], .none, .error f⟩
     | .ok (ku, key) => afterKey cfg r s.second c1 ku key
 
+/-! ## sequences of logins through one `BackEndClient`
+
+`BackEndClient.__init__` sets `settings`, `auth_client`, `auth_host`, `auth_port`, `auth_proto` and `key_derivation`;
+`login` (and `login_old` / `login_switch` / `login_with_param` / `login_guest`) only *read* them: everything a login
+computes — the response, the Kerberos key, the tickets, the credentials, the resolved address — lives in locals.
+So the client object that the next login sees is the one the previous login saw. -/
+
+/-- the state of a `BackEndClient` object between two logins: what `__init__` stored -/
+structure Client where
+  cfg : Cfg
+  deriving Repr
+
+/-- one login through a client: the arguments of the call and what the authentication server answers to it -/
+structure Step where
+  args : Args
+  script : Script
+  deriving Repr
+
+/-- `client.login(...)`: the plan of this login and the client object afterwards -/
+def Client.login (c : Client) (st : Step) : Client × Plan := (c, plan c.cfg st.args st.script)
+
+/-- the logins of `steps` one after the other through the same client object -/
+def session (c : Client) : List Step → List Plan
+  | [] => []
+  | st :: rest => (c.login st).2 :: session (c.login st).1 rest
+
+/-- `login_guest()` is `login("guest", "MMQea3n!fsik")` -/
+def guestArgs : Args := ⟨"guest", some "MMQea3n!fsik".toUTF8.toList, false⟩
+
 end Nx.Backend
